@@ -105,9 +105,10 @@ func VerifHarness_C01_negotiate() {
 	fixed := func() time.Time { return time.Time{} }
 	ccfg := &Config{Rand: verifRandSrc{}, Time: fixed}
 	scfg := &Config{Rand: verifRandSrc{}, Time: fixed}
-	k := verifBound(2, 3)
-	ccfg.CipherSuites = suiteList("client.suites", k)
-	scfg.CipherSuites = suiteList("server.suites", k)
+	// lists of up to 2 arbitrary ids on the client side; the server side has up to 2 (quick) / 3 (thorough): three on
+	// both sides did not finish in 7 minutes on 16 cores and is outside both tiers
+	ccfg.CipherSuites = suiteList("client.suites", 2)
+	scfg.CipherSuites = suiteList("server.suites", verifBound(2, 3))
 	ncert := verifSplitInt("client.certs", 0, 2)
 	for i := 0; i < ncert; i++ {
 		ccfg.Certificates = append(ccfg.Certificates, Certificate{Certificate: [][]byte{{1}}, PrivateKey: verifBothKey{}})
